@@ -278,6 +278,28 @@ fn check_value_built<D: Store + Mk>(v: &V, probe_absent: &[u64], shared: bool, a
             queries.push((V::Sym(*s), V::Unit, "key:absent".into()));
         }
     }
+    // an operand of some enclosing operation is pending underneath while the queries run: it has to be there, unchanged,
+    // after each of them (a walk that borrows the operand stack must stop at its own floor)
+    let sentinel = match construct(&mut m, &V::Int(424_242)) {
+        Ok(a) => a,
+        Err(_) => return,
+    };
+    if m.push_register(sentinel).is_err() {
+        return;
+    }
+    let sentinel_depth = m.depth();
+    macro_rules! sentinel_intact {
+        ($what:expr, $sig:expr) => {
+            if m.depth() != sentinel_depth || m.regs.last() != Some(&sentinel) || m.get_register(m.get_register_len().saturating_sub(1)) != Some(sentinel) {
+                acc.violation(
+                    format!("pending-operand-disturbed|{}", $sig),
+                    format!("[{}] {} on {}: the operand pending underneath is gone or changed (operand depth {} instead of {})", D::NAME, $what, v.show().chars().take(200).collect::<String>(), m.depth(), sentinel_depth),
+                    payload($what),
+                );
+                return;
+            }
+        };
+    }
     // length through the instruction, and the items in order through a cast to a list (both walk the whole value)
     {
         let list_type = match construct(&mut m, &V::List(vec![])) {
@@ -324,6 +346,7 @@ fn check_value_built<D: Store + Mk>(v: &V, probe_absent: &[u64], shared: bool, a
                     break;
                 }
             }
+            sentinel_intact!(qc, sigbase);
         }
     }
     for (q, want, qc) in queries {
@@ -358,7 +381,7 @@ fn check_value_built<D: Store + Mk>(v: &V, probe_absent: &[u64], shared: bool, a
                         payload(&format!("{:?} {}", ins, q.show())),
                     );
                     // the failed step may have left operands; drop them so later queries start clean
-                    while m.depth() > 0 {
+                    while m.depth() > depth_before {
                         if m.pop_register().is_err() {
                             break;
                         }
@@ -385,6 +408,7 @@ fn check_value_built<D: Store + Mk>(v: &V, probe_absent: &[u64], shared: bool, a
                             break;
                         }
                     }
+                    sentinel_intact!(&format!("{:?} {}", ins, q.show()), sigbase);
                 }
                 (Ok(_), other) => acc.violation(
                     format!("unreadable|{}", sigbase),
